@@ -74,6 +74,8 @@ pub fn round_trips<K: Fam>(e: &Enr<K>, s: &Snap) -> Result<(), String> {
 
 struct V<'a> {
     st: &'a mut Stats,
+    /// state after the last step of the observed run
+    last: Option<Snap>,
     updates: usize,
     nontrivial: bool,
     stop: bool,
@@ -87,6 +89,9 @@ fn interesting_record(s: &Snap) -> bool {
 
 impl<'a> Visitor for V<'a> {
     fn step<K: Fam>(&mut self, cx: &StepCx<K>) -> Result<(), String> {
+        if let Some(p) = cx.post {
+            self.last = Some(p.clone());
+        }
         if self.stop || !cx.res.is_ok() {
             return Ok(());
         }
@@ -157,16 +162,17 @@ impl Property for C04 {
     fn check(&self, case: &Case, st: &mut Stats) -> Result<(), String> {
         match case {
             Case::Hist(h) => {
-                let mut v = V { st, updates: 0, nontrivial: false, stop: false };
+                let mut v = V { st, last: None, updates: 0, nontrivial: false, stop: false };
                 let out = run_history(h, false, &mut v)?;
                 let nt = v.nontrivial;
                 let stopped = v.stop;
+                let last = v.last.take();
                 // the same history without any observation in between, observed cold at the end
                 if !h.ops.is_empty() && out.aborted.is_none() && !stopped {
-                    if let Some((_, cold)) = crate::exec::run_blind(h, h.ops.len(), h.ops.len() % 2 == 0)? {
+                    if let Some((_, cold)) = crate::exec::run_blind(h, h.ops.len(), (crate::case::case_hash(h) % 3) as u8)? {
                         st.evals(1);
                         st.label("blind-run");
-                        cold_consistent(&cold, None).map_err(|m| format!("after {} unobserved calls: {m}", h.ops.len()))?;
+                        cold_consistent(&cold, last.as_ref()).map_err(|m| format!("after {} unobserved calls: {m}", h.ops.len()))?;
                     }
                 }
                 st.label("kind:history");
